@@ -184,10 +184,76 @@ func must(t *T, err error) {
 	}
 }
 
+// c03HeldHandle: the history "open a file, remove it, make a directory (with a child) under the same name, write
+// through the handle that is still open". A write through a handle is an operation like any other: afterwards
+// every path Stat accepts still has a directory as parent.
+func c03HeldHandle(t *T, kind int) {
+	c := t.C
+	fs, st, desc := c03Stack(t, kind)
+	probe := candidatePaths([]string{"a", "b", "c"}, 3)
+	dir := []string{".", "a"}[c.Draw(2)]
+	if dir != "." {
+		if err := hackpadfs.MkdirAll(fs, dir, 0755); err != nil {
+			return
+		}
+	}
+	name := path.Join(dir, "b")
+	h, err := hackpadfs.OpenFile(fs, name, hackpadfs.FlagReadWrite|hackpadfs.FlagCreate, 0644)
+	if err != nil {
+		return
+	}
+	defer h.Close()
+	t.Logf("mode=held-handle stack=%s handle on %q", desc, name)
+	steps := []Op{{Kind: "Remove", P: name}, {Kind: "Mkdir", P: name, Perm: 0755}, {Kind: "Mkdir", P: name + "/c", Perm: 0755}}
+	if c.Chance(1, 3) {
+		steps = []Op{{Kind: "Rename", P: name, Q: path.Join(dir, "c")}, {Kind: "MkdirAll", P: name + "/c", Perm: 0755}}
+	}
+	for _, o := range steps {
+		out := applyOp(fs, o)
+		t.Logf("%s -> %s", o, errClass(out.Err))
+	}
+	for i, n := 0, 1+c.Draw(3); i < n; i++ {
+		o := hOp{Kind: []string{"Write", "WriteAt", "Truncate", "Chmod"}[c.Draw(4)], Data: []byte("zz"), Off: int64(c.Draw(4)), Perm: 0600}
+		res := callHandle(h, o)
+		t.Logf("handle %s -> %s", o.Kind, errClass(res.err))
+		if k, d := treeInvariants(fs, probe); k != "" {
+			t.Fail("invariant", "C03:"+c03Family(kind)+":"+k+":stale-handle-"+o.Kind, fmt.Sprintf("after %s through a handle of %q, which had been removed and made again as a directory, on %s: %s", o.Kind, name, desc, d))
+		}
+		if k, d := storeInvariants(st); k != "" {
+			t.Fail("invariant", "C03:"+c03Family(kind)+":"+k+":stale-handle-"+o.Kind, fmt.Sprintf("after %s through a handle of %q, which had been removed and made again as a directory, on %s: %s", o.Kind, name, desc, d))
+		}
+	}
+	t.NonTrivial()
+}
+
+// c03StaleHandleProbe: the fixed form of the held-handle history, on mem.
+func c03StaleHandleProbe(t *T) {
+	defer beginTrial(t, false)()
+	fs, st, desc := c03Stack(t, 0)
+	probe := candidatePaths([]string{"a", "b", "c"}, 3)
+	h, err := hackpadfs.OpenFile(fs, "b", hackpadfs.FlagReadWrite|hackpadfs.FlagCreate, 0644)
+	must(t, err)
+	defer h.Close()
+	must(t, hackpadfs.Remove(fs, "b"))
+	must(t, hackpadfs.Mkdir(fs, "b", 0755))
+	must(t, hackpadfs.Mkdir(fs, "b/c", 0755))
+	callHandle(h, hOp{Kind: "Write", Data: []byte("zz")})
+	if k, d := treeInvariants(fs, probe); k != "" {
+		t.Fail("invariant", "C03:mem:"+k+":stale-handle-Write", fmt.Sprintf("on %s: %s", desc, d))
+	}
+	if k, d := storeInvariants(st); k != "" {
+		t.Fail("invariant", "C03:mem:"+k+":stale-handle-Write", d)
+	}
+}
+
 func runC03(t *T) {
 	c := t.C
 	kind := c.Draw(6)
 	defer beginTrial(t, true)()
+	if kind != 4 && c.Chance(1, 12) {
+		c03HeldHandle(t, kind)
+		return
+	}
 	fs, st, desc := c03Stack(t, kind)
 	alpha := []string{"a", "b", "c"}
 	if c.Chance(1, 4) && kind != 4 { // (kind 4 mounts at b/c and needs the name c)
@@ -274,6 +340,7 @@ var _ = sort.Strings
 var _ = strings.Join
 
 func init() {
+	RegisterProbe("c03-stale-handle-over-directory", c03StaleHandleProbe)
 	RegisterProbe("c03-mount-remove-ancestor", c03Probe(4, Op{Kind: "RemoveAll", P: "b"}))
 	RegisterProbe("c03-sub-remove-root", c03Probe(5, Op{Kind: "Remove", P: "."}))
 	RegisterProbe("c03-remove-root", c03Probe(0, Op{Kind: "Remove", P: "."}))
